@@ -14,6 +14,8 @@ func init() {
 			c.floor("BP.SAME", 4)
 			c.runUnits("UNIT", c.unitPkgs("u"), c.fileFilter("mc.go", "marching.go", "dc.go", "surface_estimator.go"))
 			c.floor("UNIT", 10)
+			c.runArgSwap("ARGSWAP", c.unitPkgs("u"), baseIn("mc.go", "marching.go", "dc.go", "surface_estimator.go"), nil)
+			c.floor("ARGSWAP", 4)
 		},
 		SelfTest: []Mutation{
 			{Name: "bisection range keeps the outside end as 'inside'", File: "model3d/surface_estimator.go",
